@@ -52,6 +52,12 @@ func runCase(c ringlab.ChurnCfg, rep *batch.Report) batch.CaseResult {
 		}
 		return out
 	}
+	// the cause behind misplaced data, seen directly: a predecessor pointer that moved away from a live node
+	for _, f := range ringlab.CheckPredPointer(res) {
+		out.Violations = append(out.Violations, batch.Viol{Key: f.Key, What: f.What, Witness: f.Witness})
+	}
+	rep.Count("predecessor_pointer_samples_checked", res.PredSamples)
+	rep.Count("straggler_stalls_injected", res.Stragglers)
 	findings, uncertain, reads := ringlab.CheckSingleWriter(res)
 	for _, f := range findings {
 		out.Violations = append(out.Violations, batch.Viol{Key: f.Key, What: f.What, Witness: f.Witness})
@@ -139,6 +145,9 @@ func main() {
 		}
 		if i%5 == 4 && !c.RealRPC {
 			c.Ballast = 220 + (i*53)%300 // acknowledged once before the churn, every hand-over moves hundreds of keys
+		}
+		if i%4 == 0 && !c.RealRPC {
+			c.Straggler = true // one step in twelve of Notify / stabilize stalls for 20-40 ms
 		}
 		if r.WantCase(c.Name) {
 			cases = append(cases, c)
